@@ -190,25 +190,29 @@ def init_source(desc, pkg):
     name = pkg['name']
     kinds = sorted({a['kind'] for a in pkg['algs']})
     out = ['import datetime', 'import dawgie', '', 'ignore = False', '']
+    def classes(k):
+        return '[' + ', '.join(f'{base}.{name}.bot.' + _cls('Alg', a['name']) for a in pkg['algs'] if a['kind'] == k) + ']'
+
+    newstyle = desc.get('style') == 'base'  # bots are dawgie.base.Task/Analysis/Regress objects (no deprecated subclassing)
     if 'task' in kinds:
         out += [
             "def task(prefix: str, ps_hint: int = 0, runid: int = -1, target: str = '__none__'):",
             f'    import {base}.{name}.bot',
-            f'    return {base}.{name}.bot.Bot_task(prefix, ps_hint, runid, target)',
+            (f'    import dawgie.base\n    return dawgie.base.Task(prefix, ps_hint, runid, target, {classes("task")})' if newstyle else f'    return {base}.{name}.bot.Bot_task(prefix, ps_hint, runid, target)'),
             '',
         ]
     if 'analysis' in kinds:
         out += [
             'def analysis(prefix: str, ps_hint: int = 0, runid: int = -1):',
             f'    import {base}.{name}.bot',
-            f'    return {base}.{name}.bot.Bot_analysis(prefix, ps_hint, runid)',
+            (f'    import dawgie.base\n    return dawgie.base.Analysis(prefix, ps_hint, runid, {classes("analysis")})' if newstyle else f'    return {base}.{name}.bot.Bot_analysis(prefix, ps_hint, runid)'),
             '',
         ]
     if 'regress' in kinds:
         out += [
             "def regress(prefix: str, ps_hint: int = 0, target: str = '__none__'):",
             f'    import {base}.{name}.bot',
-            f'    return {base}.{name}.bot.Bot_regress(prefix, ps_hint, target)',
+            (f'    import dawgie.base\n    return dawgie.base.Regress(prefix, ps_hint, target, {classes("regress")})' if newstyle else f'    return {base}.{name}.bot.Bot_regress(prefix, ps_hint, target)'),
             '',
         ]
     evs = [(a, e) for a in pkg['algs'] for e in a.get('events', [])]
